@@ -1332,7 +1332,12 @@ def api_records(sc, vh, inputs, tag):
 
 def c08_c12_inputs(sc, d, rep, tier):
     beh = sqli_export(sc, d, rep, tier, only={"check"})
-    ins = [b["in"] for b in beh] + sqli_inputs(tier, "c08")
+    bi = [b["in"] for b in beh]
+    cap = 400000          # (the full enumeration is replayed by C06; the API records here are about 3 kB each)
+    if len(bi) > cap:
+        bi = vgen.rng("c08cap").sample(bi, cap)
+        rep.part("inputs", exported_check_behaviours=len(beh), sampled_for_api_records=cap)
+    ins = bi + sqli_inputs(tier, "c08")
     return list(vgen.dedup(ins))
 
 
